@@ -7,6 +7,8 @@ use std::io::{BufRead, Write};
 mod consts;
 mod mp;
 mod prog;
+#[cfg(feature = "std")]
+mod refs;
 mod settable;
 mod streams;
 // the crate's own example, compiled from the current source: its StreamPID is the stream assembly of C04
@@ -48,6 +50,10 @@ fn run_case(case: &[i64]) -> Vec<i64> {
         7 => world::run_world_case(&case[1..]),
         #[cfg(feature = "devices")]
         8 => world::run_axle_index_case(&case[1..]),
+        #[cfg(feature = "std")]
+        9 => refs::run_ref_case(&case[1..]),
+        #[cfg(feature = "std")]
+        10 => refs::run_thread_case(&case[1..]),
         _ => vec![W_BAD],
     }));
     match r {
